@@ -52,6 +52,21 @@ def shape(v):
 # -- constructors -----------------------------------------------------------
 
 
+def dtype_base(t):
+    """the array whose dtype a value has when it is obtained by dtype-preserving operations only
+    (selections, transposes, reshapes, copies, stacking of one list)"""
+    while isinstance(t, Term):
+        if t.op in ("getitem", "T", "reshape1", "reshape", "copy", "astype_dyn", "bcast") and t.args and isinstance(t.args[0], Term):
+            t = t.args[0]
+        elif t.op == "stack" and len(t.args) == 2 and isinstance(t.args[1], Term):
+            t = t.args[1]
+        elif t.op == "dtype" and t.args and isinstance(t.args[0], Term):
+            t = t.args[0]
+        else:
+            break
+    return t
+
+
 def _index_like(x):
     """integer-valued by construction (index vectors, counts): a cast to int keeps the values"""
     t = x.term
@@ -74,6 +89,8 @@ def _dtype_tag(dt, fill=None):
         # truncated; the dtype of one of the estimator's own float buffers is the default
         if any(isinstance(o_, tuple) and o_ and o_[0] in ("in", "optin") for o_ in (dt.orig or ())):
             return ("dtype", t)
+        if isinstance(t, Term) and t.op == "dtype" and isinstance(dtype_base(t), Term) and dtype_base(t).op == "sym":
+            return ("dtype", t)  # the dtype of (a selection / stacking of) symbolic caller data
         return None
     if fill is not None and fill.has_const:
         if isinstance(fill.const, bool):
@@ -94,11 +111,16 @@ def np_zeros(interp, name, args, kw, st, node):
     if base == "empty":
         base = "zeros"
     term = T(base, *shape_terms(dims, shape_arg_terms(b["shape"]))) if dims is not None else T(base, b["shape"].term)
+    dyn = None
     if tag:
         term = T("astype", term, tag) if isinstance(tag, str) else T("astype_dyn", term, tag[1])
         if not isinstance(tag, str):
+            dyn = ("dyn", tag[1])  # the buffer has the dtype of caller data: what is stored into it may be truncated
             tag = None
-    return fresh_arr(term, dims, frozenset(), tag)
+    r = fresh_arr(term, dims, frozenset(), tag)
+    if dyn is not None:
+        r.extra = dyn
+    return r
 
 
 @reg("numpy.full")
@@ -131,7 +153,12 @@ def np_like(interp, name, args, kw, st, node):
         term = T("astype", term, tag)
     else:
         tag = None
-    return fresh_arr(term, sh, _L(fill) if fill is not None else frozenset(), tag)
+    r = fresh_arr(term, sh, _L(fill) if fill is not None else frozenset(), tag)
+    if (b.get("dtype") is None or b["dtype"].kind == "none") and isinstance(a_.extra, tuple) and a_.extra and a_.extra[0] == "dyn":
+        # *_like of a buffer that has the dtype of caller data has that dtype too
+        r.extra = a_.extra
+        r.term = T("astype_dyn", term, a_.extra[1])
+    return r
 
 
 @reg("numpy.eye", "numpy.identity")
@@ -1578,7 +1605,10 @@ def call_external(interp, qual, args, kw, st, node):
                     tag = _dtype_tag(extra["dtype"])
                     if tag is None or isinstance(tag, str):
                         del extra["dtype"]
-                        if isinstance(tag, str):
+                        if tag == "float32":
+                            interp.event("shape-conflict", node, st, what="precision-loss: conversion to reduced precision", a=qual, b="float32")
+                            res = res.replace(term=T("cast", res.term, tag), extra=tag)
+                        elif isinstance(tag, str):
                             res = res.replace(term=T("astype", res.term, tag), extra=tag)
                 if extra:
                     res = _with_extra_kw(interp, res, extra)
